@@ -3,6 +3,7 @@
 // interrupt callbacks to the interrupter (scripted as for the main stub), "solve" with stop polls, print a message.
 // Its application object (the real mp::BackendApp) can be run repeatedly.
 #include "simbackend.h"
+#include "mp/backend-std.h"
 
 namespace drvsim {
 namespace {
@@ -34,7 +35,69 @@ class MiniBackend : public mp::BasicBackend {
   void ReportError(int code, fmt::CStringRef msg) override { fmt::print(stderr, "MINIDRV error {}: {}\n", code, msg.c_str()); }
 };
 
+// A third party: a driver on mp::StdBackend whose model manager does nothing (the model is the solver's business there), so
+// that the same backend object can be handed a model file any number of times.  It opens a new solver session whenever its
+// options have been parsed and registers the session in use when the framework asks for it (SetInterrupter).
+class NoModelManager : public mp::BasicModelManager {
+ public:
+  void InitOptions() override {}
+  void ReadNLModel(const std::string&, const std::string&, Checker_AMPLS_ModeltTraits, std::function<void()> after_header) override { after_header(); }
+  mp::ArrayRef<double> InitialValues() override { return {}; }
+  mp::ArrayRef<int> InitialValuesSparsity() override { return {}; }
+  mp::ArrayRef<double> InitialDualValues() override { return {}; }
+  mp::ArrayRef<int> InitialDualValuesSparsity() override { return {}; }
+  mp::ArrayRef<int> ReadSuffix(const mp::SuffixDef<int>&) override { return {}; }
+  mp::ArrayRef<double> ReadSuffix(const mp::SuffixDef<double>&) override { return {}; }
+  void ReportSuffix(const mp::SuffixDef<int>&, mp::ArrayRef<int>) override {}
+  void ReportSuffix(const mp::SuffixDef<double>&, mp::ArrayRef<double>) override {}
+  size_t GetSuffixSize(int) override { return 0; }
+  void SetSolutionFileName(const std::string&) override {}
+  void HandleSolution(int, fmt::CStringRef, const double*, const double*, double) override {}
+  void HandleFeasibleSolution(int, fmt::CStringRef, const double*, const double*, double) override {}
+  const std::vector<bool>& IsVarInt() const override { return is_int_; }
+  bool HasUnfixedIntVars() const override { return false; }
+ private:
+  std::vector<bool> is_int_;
+};
+
+class LeanBackend : public mp::StdBackend<LeanBackend> {
+ public:
+  LeanBackend() { SetMM(std::unique_ptr<mp::BasicModelManager>(new NoModelManager)); }
+  static const char* GetSolverName() { return "LeanSolver"; }
+  static std::string GetSolverVersion() { return "1.0"; }
+  static const char* GetAMPLSolverName() { return "leandrv"; }
+  static double Infinity() { return 1e100; }
+  static double MinusInfinity() { return -1e100; }
+  void FinishOptionParsing() override {
+    sim::g.yield("stub", "stub.FinishOptionParsing");
+    if (g_script["session_reopen"].as_bool(true)) { g_session = (g_session + 1) % 16; sim::g.event("SESSION_OPEN cell" + std::to_string(g_session)); }
+  }
+  mp::Solution GetSolution() override { return {}; }
+  mp::ArrayRef<double> GetObjectiveValues() override { return {}; }
+  bool IsMIP() const override { return false; }
+  void SetInterrupter(mp::Interrupter* inter) override {
+    sim::g.yield("stub", "stub.SetInterrupter");
+    do_registrations(inter, -1);
+  }
+  void Solve() override {
+    mp::Interrupter* inter = interrupter();
+    sim::g.event("SOLVE_SESSION cell" + std::to_string(g_session));
+    long iters = g_script["solve_iters"].as_int(2);
+    for (long it = 0; it < iters; ++it) {
+      sim::g.yield("stub", "stub.solve.iter");
+      bool st = inter->Stop();
+      sim::g.event(std::string("STOP_POLL ") + (st ? "1" : "0"));
+    }
+    sim::g.yield("stub", "stub.solve.end");
+    bool st = inter->Stop();
+    sim::g.event(std::string("STOP_POLL ") + (st ? "1" : "0"));
+    sim::g.event("SOLVE_END");
+  }
+};
+
 }  // namespace
+
+std::unique_ptr<mp::BasicBackend> CreateLeanBackend() { return std::unique_ptr<mp::BasicBackend>{new LeanBackend()}; }
 
 std::unique_ptr<mp::BasicBackend> CreateMiniBackend() { return std::unique_ptr<mp::BasicBackend>{new MiniBackend()}; }
 
